@@ -1913,7 +1913,17 @@ impl SctpInner {
             let a_rwnd = buf.get_u32();
             let num_gap_ack_blocks = buf.get_u16();
             let _num_duplicate_tsns = buf.get_u16();
-            let old_rwnd = self.peer_rwnd.swap(a_rwnd, Ordering::SeqCst);
+            // RFC 4960 §6.2.1 D i): a SACK whose cumulative TSN is behind the one
+            // already acknowledged was overtaken on the way; its a_rwnd is old news.
+            let overtaken = tsn_gt(
+                self.peer_cumulative_ack.load(Ordering::SeqCst),
+                cumulative_tsn_ack,
+            );
+            let old_rwnd = if overtaken {
+                self.peer_rwnd.load(Ordering::SeqCst)
+            } else {
+                self.peer_rwnd.swap(a_rwnd, Ordering::SeqCst)
+            };
             if tsn_gt(
                 cumulative_tsn_ack,
                 self.peer_cumulative_ack.load(Ordering::SeqCst),
